@@ -118,14 +118,57 @@ def statuses(outcome, raw):
     return outcome, None
 
 
+def Q(*parts, some=False):
+    return {'some': some, 'parts': [(('var', p[1:]) if p.startswith('%') else (('all',) if p == '*' else (('allidx',) if p == '[*]' else ('key', p)))) for p in parts]}
+
+
+def C(q, op, rhs=None, opnot=False, neg=False):
+    return ('cmp', neg, q, op, opnot, rhs, None)
+
+
+def history_templates():
+    """programs whose verdict could depend on which reference populates a memoised variable or a cached rule status first:
+    `some` variables read by clauses that treat unresolved entries differently, reference chains top -> mid -> base with a
+    later direct reference, a variable shared by several rules, forward and backward references"""
+    s = lambda x: ('lit', ('str', x))
+    i = lambda x: ('lit', ('int', x))
+    t1 = {'lets': [('v', ('q', Q('Resources', '*', 'Properties', 'Mode', some=True))), ('w', ('q', Q('Resources', '*', 'Properties', 'Size')))],
+          'rules': [{'name': 'a', 'when': None, 'params': None, 'block': {'lets': [], 'cnf': [[C(Q('%v', some=True), '==', s('on'))], [C(Q('%v'), '==', s('on'))], [C(Q('%v'), 'exists')]]}},
+                    {'name': 'b', 'when': None, 'params': None, 'block': {'lets': [], 'cnf': [[C(Q('%w'), '>=', i(1)), C(Q('%v'), 'empty')], [C(Q('%w', some=True), '==', i(5))]]}},
+                    {'name': 'c', 'when': [[C(Q('%v'), '!=', s('off'))]], 'params': None, 'block': {'lets': [], 'cnf': [[C(Q('%w'), 'exists')], [('named', False, 'a', None)]]}}],
+          'default': []}
+    t2 = {'lets': [],
+          'rules': [{'name': 'base', 'when': None, 'params': None, 'block': {'lets': [], 'cnf': [[C(Q('a'), 'exists')]]}},
+                    {'name': 'mid', 'when': [[('named', False, 'base', None)]], 'params': None, 'block': {'lets': [], 'cnf': [[C(Q('b'), '==', i(1))]]}},
+                    {'name': 'top', 'when': None, 'params': None, 'block': {'lets': [], 'cnf': [[('named', False, 'mid', None)]]}},
+                    {'name': 'other', 'when': None, 'params': None, 'block': {'lets': [], 'cnf': [[('named', False, 'base', None)], [('named', True, 'mid', None), ('named', False, 'top', None)]]}}],
+          'default': []}
+    t3 = {'lets': [('x', ('q', Q('items', '[*]', 'k'))), ('lim', ('lit', ('int', 2)))],
+          'rules': [{'name': 'r1', 'when': None, 'params': None, 'block': {'lets': [('lim', ('lit', ('int', 5)))], 'cnf': [[C(Q('%x'), '<=', ('q', Q('%lim')))], [C(Q('%x', some=True), '==', i(3))]]}},
+                    {'name': 'r2', 'when': None, 'params': None, 'block': {'lets': [], 'cnf': [[C(Q('%x'), '<=', ('q', Q('%lim')))], [('named', False, 'r1', None), ('named', True, 'r3', None)]]}},
+                    {'name': 'r3', 'when': [[('named', False, 'r1', None)]], 'params': None, 'block': {'lets': [], 'cnf': [[C(Q('%x', some=True), '>', i(4))]]}}],
+          'default': []}
+    docs1 = [{"Resources": {"a": {"Properties": {"Mode": "on", "Size": 5}}, "b": {"Properties": {"Size": 1}}}},
+             {"Resources": {"a": {"Properties": {"Mode": "off"}}, "b": {"Properties": {"Mode": "on", "Size": 0}}}},
+             {"Resources": {"a": {"Properties": {}}}}, {"Resources": {}}]
+    docs2 = [{"a": 1, "b": 1}, {"a": 1, "b": 2}, {"b": 1}, {}]
+    docs3 = [{"items": [{"k": 1}, {"k": 3}]}, {"items": [{"k": 5}, {"j": 1}]}, {"items": []}, {"items": [{"k": 3}, {"k": 9}]}]
+    return [(t1, docs1), (t2, docs2), (t3, docs3)]
+
+
 def run_diff(ctx, nprog, budget):
     rng = random.Random(ctx.seed * 211 + 4)
     feats = {'cycles': 0.0, 'captures': False}
     base, pairs, owner = [], [], []
-    for k in range(nprog):
-        doc, prog = gen.gen_pair(rng, feats)
-        docs = [doc] + ([gen.gen_doc(rng)] if rng.random() < 0.3 else [])
-        vs = variants(prog, rng, budget)
+    templates = history_templates()
+    for k in range(nprog + len(templates)):
+        if k < len(templates):
+            prog, docs = templates[k]
+            vs = variants(prog, rng, 200)
+        else:
+            doc, prog = gen.gen_pair(rng, feats)
+            docs = [doc] + ([gen.gen_doc(rng)] if rng.random() < 0.3 else [])
+            vs = variants(prog, rng, budget)
         base.append({'prog': prog, 'docs': docs, 'variants': vs})
         for di, d in enumerate(docs):
             pairs.append((gen.render_file(prog), json.dumps(d)))
@@ -168,6 +211,7 @@ def run_diff(ctx, nprog, budget):
                         if m and len(s0.get(m.group(1), [])) == 1 and s1.get(m.group(2)) is not None and sorted(set(s1[m.group(2)])) != sorted(set(s0[m.group(1)])):
                             ctx.failing('%s: the copy has status %s, the original %s' % (desc, s1[m.group(2)], s0[m.group(1)]), info, found=True)
     ctx.coverage['programs'] = nprog
+    ctx.coverage['history_templates'] = len(templates)
     ctx.coverage['variants_compared'] = compared
     ctx.coverage['variants_skipped_because_an_ordering_errs'] = skipped_err
     ctx.coverage['transformation_kinds'] = kinds
